@@ -85,6 +85,17 @@ CLAIMS = {
              "_resolve_globs_in_paths and pathlib globbing only covered natively (bounded).",
         technique="VC generation from the Python AST (pyvc) + z3/cvc5 with fold specifications; finite enumeration with the real re",
         design="3/C18"),
+    "C06": dict(
+        text="Text layer of references/rename: range_json/uri_json/change_json keep the four coordinates (VCs, the "
+             "falsy-zero idiom is a precondition discharged at the call sites' shape); strip_comment returns a prefix of "
+             "the line without `!` (VCs over str.split facts); the name regex taken from the source of "
+             "get_all_references is escape-safe and finds exactly the whole-word occurrences (exhaustive small-scope "
+             "lemma with the real re); loop shape and emitters are structural obligations; references and rename from "
+             "every occurrence of every entity of two programs are the bounded stand-in.",
+        note="That each hit is bound to the same entity is get_definition's business (C05) and only covered by the "
+             "bounded stand-in; identifier characters = word characters and `$`.",
+        technique="VC generation (pyvc) + z3/cvc5 for the range/strip functions; exhaustive lemma with the real re; structural obligations",
+        design="3/C06"),
 }
 
 NOT_APPLICABLE = {
